@@ -396,10 +396,10 @@ def request_oracle(case):
 def check_burst(rep, tier, glob):
     """concurrent FIRST emission of a metric name (several request goroutines at once after start-up): the client's
     get-or-create must not register the vector twice (the Prometheus registry panics on a duplicate)"""
-    rounds = 150 if tier == "quick" else 1500
+    rounds = 250 if tier == "quick" else 2500
     lines = ["cfg global=%s" % (",".join(glob) or "-")]
     for kind in ("counter", "gauge", "histogram"):
-        lines.append("burst %s c20.burst.%s m,n 8 %d" % (kind, kind, rounds))
+        lines.append("burst %s c20.burst.%s m,n 48 %d" % (kind, kind, rounds))
     out = core.run_impl("metrics", lines, timeout=300)
     c = _case(lines, out, ["cfg ok"] + ["burst %s panics=0 errs=0" % k for k in ("counter", "gauge", "histogram")])
     rep.count_case(c)
